@@ -1,27 +1,25 @@
 use crate::eng::*;
+use llguidance::StopController;
 pub fn run() {
     let (ws, eos) = single_byte_vocab();
     let env = make_env(&ws, eos, false);
-    for lark in [
-        "start: T\nT: (\"ab\" | /[c-d]/){1,2} & ~(\"abab\")\n",
-        "start: T\nT: ~(/a+/) & /[ab]{0,2}/\n",
-        "start: T\nT: (\"a\" \"b\"?)* \n",
-        "start: T\nT: \"\\x61\\u00e9\" /[a-b]/\n",
+    for (stops, text) in [
+        (vec!["b", "ab"], "xxabyy"),
+        (vec!["ab", "b"], "xxabyy"),
+        (vec!["abc", "b"], "xxabcyy"),
+        (vec!["bcd", "abc"], "xabcdy"),
+        (vec!["aa"], "xaaay"),
     ] {
-        match new_matcher(&env, lark, &[]) {
-            Ok(mut m) => {
-                print!("OK   {:?}: ", lark);
-                for s in ["", "ab", "abab", "abc", "c", "b", "bb", "aa", "aéa"] {
-                    let mut c = m.deep_clone();
-                    let mut ok = true;
-                    for &b in s.as_bytes() { if c.is_stopped() || c.consume_token(b as u32).is_err() { ok = false; break; } }
-                    let acc = ok && c.is_accepting().unwrap_or(false);
-                    print!("{s:?}={} ", acc);
-                }
-                println!();
-                let _ = m.compute_mask();
-            }
-            Err(e) => println!("ERR  {:?}: {}", lark, e.lines().next().unwrap_or("")),
+        let mut sc = StopController::new(env.clone(), vec![], None, stops.iter().map(|s| s.to_string()).collect()).unwrap();
+        let mut out = String::new();
+        for b in text.bytes() {
+            out.push_str(&sc.commit_token(b as u32));
         }
+        println!("{:?} {:?} -> {:?} stopped={}", stops, text, out, sc.is_stopped());
     }
+    // regex stop
+    let mut sc = StopController::new(env.clone(), vec![], Some("a+b".to_string()), vec![]).unwrap();
+    let mut out = String::new();
+    for b in "xxaaabyy".bytes() { out.push_str(&sc.commit_token(b as u32)); }
+    println!("regex a+b xxaaabyy -> {:?}", out);
 }
